@@ -10,9 +10,11 @@ from .core import Plugin
 BASES = ["http://x.org/", "http://x.org/a_", "http://x.org/a", "https://y.org/ns#", "https://y.org/ns", "urn:z:", "http://x.org/a/b/",
          "é://ü/", "https://github.com/o/r/issues/", "https://github.com/o/r/pull/", "https://github.com/issues_list/", "", "x", "http://x.org/A_",
          "http://x.org/e?id=", "http://x.org/gene_id", "urn::z::", "http://x.org/q__"]
-LUIDS = ["1", "2", "3", "0001", "abc", "Z9", "é", "٣", "ⅷ", "a_b", "a-b", "", "a/b", "x#y", "1_2", "²", "𝔘", "12345"]
+LUIDS = ["1", "2", "3", "0001", "abc", "Z9", "é", "٣", "ⅷ", "a_b", "a-b", "", "a/b", "x#y", "1_2", "²", "𝔘", "12345", "id123", "id456", "a7", "geneid9"]
 DELIMS = [None, None, None, ["#", "/", "_"], ["/"], ["_", "/"], ["#"], ["/", "#", "_", ":"], [":"], ["__", "/"], ["/b/", "/"], [],
-          ["?id=", "/"], ["_id", "/"], ["::"], ["=", "?id="], ["__"], ["_id"], ["::", ":"]]
+          ["?id=", "/"], ["_id", "/"], ["::"], ["=", "?id="], ["__"], ["_id"], ["::", ":"],
+          # delimiters that end in alphanumeric characters: two delimiters can then both leave an alphanumeric tail on one URI
+          ["/id", "/"], ["/", "/id"], ["a", "/"], ["_id", "_"], ["id", "_", "/"], ["/a", "#", "/"]]
 
 
 class C19(Plugin):
